@@ -72,7 +72,7 @@ def plan(tier, seed):
 
 
 def mandatory(tier):
-    return ["functional", "functional/flag_sweep", "accessors/constructors", "accessors/Grid", "accessors/Cube", "accessors/Image", "accessors/ImageBatch", "accessors/FlowFields", "transforms", "deepcopy", "pytest"]
+    return ["functional", "functional/flag_sweep", "functional/mask_sweep", "functional/special_values", "accessors/constructors", "accessors/Grid", "accessors/Cube", "accessors/Image", "accessors/ImageBatch", "accessors/FlowFields", "transforms", "deepcopy", "pytest"]
 
 
 def run_item(ctx, item):
@@ -114,13 +114,41 @@ def functional(ctx, D, part):
         # (in-place arithmetic often hides behind an option, e.g. binarize=True, normalize=False)
         flags = bool_flags(fn)
         variants = [(si, spec, None) for si, spec in enumerate(specs)] + [(0, specs[0], fl) for fl in flags]
+        # optional weighting tensors (mask=, weight=, source_mask=, ...): each alone and all together, as float32
+        # tensors the function could be tempted to combine in place
+        mk = mask_params(fn)
+        combos = [(m,) for m in mk] + ([tuple(m for m in mk if m != "mask")] if len([m for m in mk if m != "mask"]) > 1 else [])
+        variants += [(0, specs[0], ("masks", c)) for c in combos]
+        # special-valued first tensor: no-op arithmetic (scale 1, shift 0, clamp that changes nothing) is where a
+        # function is tempted to keep working on the caller's tensor
+        variants += [(0, specs[0], ("special", kind_)) for kind_ in ("unit_range", "constant", "zeros")]
         for si, spec, flag in variants:
             try:
                 args, kwargs = spec(E)
             except Exception as e:  # noqa: BLE001  (spec does not apply to this D)
                 ctx.count("spec_not_applicable")
                 continue
-            if flag is not None:
+            if flag is not None and flag[0] == "special":
+                import torch
+
+                j = next((k_ for k_, a in enumerate(args) if isinstance(a, torch.Tensor) and type(a) is torch.Tensor and a.is_floating_point() and a.ndim >= 3), None)
+                if j is None:
+                    continue
+                a = args[j].detach().clone().contiguous()
+                if flag[1] == "unit_range":
+                    a = (a - a.min()) / (a.max() - a.min())
+                elif flag[1] == "constant":
+                    a = torch.full_like(a, 0.5)
+                else:
+                    a = torch.zeros_like(a)
+                args = tuple(a if k_ == j else v for k_, v in enumerate(args))
+                ctx.bucket("functional/special_values")
+            elif flag is not None and flag[0] == "masks":
+                kwargs = {k: v for k, v in kwargs.items() if k not in mk}
+                for j, m in enumerate(flag[1]):
+                    kwargs[m] = E.mask if j % 2 == 0 else E.mask_b
+                ctx.bucket("functional/mask_sweep")
+            elif flag is not None:
                 if flag[0] in kwargs:
                     continue
                 kwargs = dict(kwargs, **{flag[0]: flag[1]})
@@ -161,6 +189,17 @@ def bool_flags(fn):
         if isinstance(prm.default, bool) and n not in ("inplace", "in_place"):
             out.append((n, not prm.default))
     return out
+
+
+def mask_params(fn):
+    r"""Names of optional (default None) keyword parameters that take a weighting tensor."""
+    import inspect
+
+    try:
+        sig = inspect.signature(fn)
+    except (TypeError, ValueError):
+        return []
+    return [n for n, prm in sig.parameters.items() if prm.default is None and (n == "weight" or n.endswith("mask"))]
 
 
 # ------------------------------------------------------------------------------------------------
@@ -308,6 +347,9 @@ def accessors(ctx, k):
             "narrow": lambda o: o.narrow(o.ndim - 1, 1, 3), "avg_pool": lambda o: o.avg_pool(2), "conv": lambda o: o.conv(kernel), "sample_grid": lambda o: o.sample(tgt),
             "sample_own": lambda o: o.sample(g) if not batched else o.sample(list(o.grids())), "normalize": lambda o: o.normalize(), "rescale": lambda o: o.rescale(0, 1),
             "deepcopy": lambda o: pycopy.deepcopy(o), "copy": lambda o: pycopy.copy(o), "tensor": lambda o: o.tensor(), "add": lambda o: o + 1, "clone": lambda o: o.clone(), "float": lambda o: o.float(),
+            # the same operations with the align_corners convention overridden for this call only
+            "resize(ac)": lambda o: o.resize([m + 2 for m in n], align_corners=not g.align_corners()), "downsample(ac)": lambda o: o.downsample(1, align_corners=not g.align_corners()),
+            "upsample(ac)": lambda o: o.upsample(1, align_corners=not g.align_corners()), "pyramid(ac)": lambda o: o.pyramid(2, align_corners=not g.align_corners()),
         }
         if cls_name.startswith("Flow"):
             icalls.update({
